@@ -59,11 +59,36 @@ def generate(r):
         counter[0] += 1
         return 1000 + counter[0]
 
+    def clauses(names):
+        """[first filter, first handler, further clauses]: a try has one to three catch clauses with distinct filters; the
+        first clause whose filter matches handles the error. A handler may hold fault points, prints, a closure over the
+        catch variable and a rendezvous with another fiber."""
+        filters = r.sample(sorted(set(FILTERS)), r.choice([1, 1, 1, 2, 2, 3]))
+        if "Error" in filters:
+            # the catch-all goes last, otherwise the later clauses are dead
+            filters.remove("Error")
+            filters.append("Error")
+        out = []
+        for _ in filters:
+            handler = []
+            for _ in range(r.randint(0, 2)):
+                what = r.random()
+                if what < 0.3:
+                    handler.append(["fp"])
+                elif what < 0.55:
+                    handler.append(["capture_e"])
+                elif what < 0.7:
+                    handler.append(["sync", const()])
+                else:
+                    handler.append(["print", "H%d" % const(), list(names)])
+            out.append(handler)
+        return [filters[0], out[0], [[f, h] for f, h in zip(filters[1:], out[1:])]]
+
     def block(fi, depth, in_loop, in_try, names, in_cb=False):
         stmts = []
         for _ in range(r.randint(1, 5)):
             kind = r.choice(["let", "fp", "fp", "fp", "call", "try", "try", "loop", "print", "exit", "exit", "cb", "assign",
-                             "capture", "cbfor", "while", "exitloop", "exitloop"])
+                             "capture", "cbfor", "while", "exitloop", "exitloop", "sync"])
             if kind == "let":
                 name = "v%d_%d" % (len(names), fi)
                 names.append(name)
@@ -75,6 +100,9 @@ def generate(r):
                 name = "g%d_%d" % (len(names), fi)
                 names.append(name)
                 stmts.append(["capture", name, source])
+            elif kind == "sync" and not in_cb:
+                # park this fiber on a rendezvous with the echo fiber (channel operations inside callbacks are excluded)
+                stmts.append(["sync", const()])
             elif kind == "fp":
                 # mostly through the fp() helper (the error is born one frame up), sometimes inline in this frame
                 stmts.append(["fp"] if r.random() < 0.7 else ["fpi"])
@@ -83,10 +111,7 @@ def generate(r):
                 stmts.append(["call", g, [const() for _ in range(params[g])]])
             elif kind == "try" and depth < 3:
                 body = block(fi, depth + 1, in_loop, in_try + 1, list(names), in_cb)
-                handler = []
-                for _ in range(r.randint(0, 2)):
-                    handler.append(["fp"] if r.random() < 0.4 else ["print", "H%d" % const(), list(names)])
-                stmts.append(["try", body, list(names), r.choice(FILTERS), handler])
+                stmts.append(["try", body, list(names)] + clauses(list(names)))
             elif kind == "loop" and depth < 3 and not in_loop:
                 stmts.append(["loop", r.randint(1, 3), block(fi, depth + 1, True, in_try, list(names), in_cb)])
             elif kind == "while" and depth < 3 and not in_loop:
@@ -101,9 +126,9 @@ def generate(r):
                 how = r.choice(["break", "continue", "ret"] if in_try else ["break", "continue"])
                 inner = [["fp"]] if r.random() < 0.5 else []
                 inner.append(["ret", const()] if how == "ret" else [how])
-                wrapped = ["try", inner, list(names), r.choice(FILTERS), []]
+                wrapped = ["try", inner, list(names), r.choice(FILTERS), [], []]
                 if r.random() < 0.5:
-                    wrapped = ["try", [wrapped], list(names), r.choice(FILTERS), []]
+                    wrapped = ["try", [wrapped], list(names), r.choice(FILTERS), [], []]
                 stmts.append(["loop", r.randint(1, 2), [wrapped]])
                 stmts.append(["fp"])
                 if how == "ret":
@@ -120,7 +145,7 @@ def generate(r):
                         g = r.randint(fi + 1, nf - 1)
                         inner.append(["call", g, [const() for _ in range(params[g])]])
                     elif what == "try" and depth < 2:
-                        inner.append(["try", [["fp"]], list(names), r.choice(FILTERS), []])
+                        inner.append(["try", [["fp"]], list(names), r.choice(FILTERS), [], []])
                 if kind == "cb":
                     stmts.append(["cb", r.randint(1, 3), inner, r.choice(["each", "map", "filter", "reduce", "sort", "all"])])
                 else:
@@ -164,6 +189,11 @@ def render(funs, target, kind):
     # every fault point performs one read of the simulated file system; in the IoError kind that read is
     # what fails (injected by the simulator), in the other kinds the fault point itself raises
     lines.append("fn fp() { CNT += 1; readFile('%s'); if CNT == TARGET { %s } }" % (DATA, action))
+    # an echo fiber: sync(v) parks the calling fiber on a synchronous rendezvous and gets v back
+    lines.append("let REQ = chan(); let RSP = chan();")
+    lines.append("fn echo() { let v = <- REQ; while v != nil { RSP <- v; v = <- REQ; } }")
+    lines.append("launch echo();")
+    lines.append("fn sync(v) { REQ <- v; <- RSP }")
 
     def names_tail(names):
         out = ""
@@ -222,11 +252,18 @@ def render(funs, target, kind):
                 out.append("%sfor y in %s.iter().map(|x| {" % (ind, items))
                 out += rb(s[2], ind + "  ")
                 out.append("%s  x }) { }" % ind)
+            elif s[0] == "sync":
+                out.append("%sprint('Y', sync(%d));" % (ind, s[1]))
+            elif s[0] == "capture_e":
+                # the catch variable captured by a closure made inside the handler
+                out.append("%sif true { let seen = || e.cls().name(); print('K', seen()); }" % ind)
             elif s[0] == "try":
                 out.append("%stry {" % ind)
                 out += rb(s[1], ind + "  ")
-                out.append("%s} catch e: %s { print('C', e.cls().name(), e.message == 'injected'%s);" % (ind, s[3], names_tail(s[2])))
-                out += rb(s[4], ind + "  ")
+                for clause_filter, handler in [[s[3], s[4]]] + (s[5] if len(s) > 5 else []):
+                    out.append("%s} catch e: %s { print('C', '%s', e.cls().name(), e.message == 'injected'%s);" % (
+                        ind, clause_filter, clause_filter, names_tail(s[2])))
+                    out += rb(handler, ind + "  ")
                 out.append("%s}" % ind)
         return out
 
@@ -328,13 +365,24 @@ def model(funs, target, kind):
                         break
                     except Cont:
                         continue
+            elif s[0] == "sync":
+                out.append("Y %d" % s[1])
+            elif s[0] == "capture_e":
+                out.append("K %s" % env["$error"])
             elif s[0] == "try":
                 try:
                     run_block(s[1], env)
                 except Raise as error:
-                    if s[3] == "Error" or s[3] == error.cls:
-                        out.append(show("C %s %s" % (error.cls, "true" if error.raised else "false"), env, s[2]))
-                        run_block(s[4], env)
+                    for clause_filter, handler in [[s[3], s[4]]] + (s[5] if len(s) > 5 else []):
+                        if clause_filter == "Error" or clause_filter == error.cls:
+                            out.append(show("C %s %s %s" % (clause_filter, error.cls, "true" if error.raised else "false"), env, s[2]))
+                            outer = env.get("$error")
+                            env["$error"] = error.cls
+                            try:
+                                run_block(handler, env)
+                            finally:
+                                env["$error"] = outer
+                            break
                     else:
                         raise
 
